@@ -30,6 +30,7 @@ import (
 	"os"
 	"os/exec"
 	"runtime"
+	"runtime/pprof"
 	"sort"
 	"strings"
 	"sync"
@@ -176,7 +177,7 @@ func newCluster(e envSpec) (*mockcluster.Cluster, context.CancelFunc) {
 		}
 	}
 	// peer ids handed out by the allocator stay away from store ids and the inputs' peer ids
-	for i := 0; i < 20000; i++ {
+	for i := 0; i < 2000; i++ {
 		c.AllocID()
 	}
 	return c, cancel
@@ -536,7 +537,8 @@ func (g *genCtx) Block() bool {
 	}
 	b := g.block
 	g.block++
-	return b%g.n == g.shard
+	// blocks are dealt out pseudo-randomly so that periodic patterns of heavy blocks do not pile up on one worker
+	return int((uint64(b)*0x9E3779B97F4A7C15>>33)%uint64(g.n)) == g.shard
 }
 
 type scope struct {
@@ -550,6 +552,11 @@ type clusterCache struct {
 	key    string
 	cl     *mockcluster.Cluster
 	cancel context.CancelFunc
+	// scheduler scenarios: cluster with regions, reused while only the store loads change
+	skey    string
+	scl     *mockcluster.Cluster
+	scancel context.CancelFunc
+	ssims   map[uint64]*regionsim.Region
 }
 
 func (c *clusterCache) get(e envSpec) *mockcluster.Cluster {
@@ -579,7 +586,7 @@ func (rn *runner) eval(in *input, cc *clusterCache) (v *violation) {
 	if in.Scatter != nil {
 		return rn.runScatter(in.Scatter, cc.get(in.Scatter.Env))
 	}
-	return rn.runSched(in.Sched)
+	return rn.runSched(in.Sched, cc)
 }
 
 // ---------------------------------------------------------------- driver
@@ -653,6 +660,11 @@ func workerMain(all []*scope, arg string) {
 	if dl > 0 {
 		deadline = time.UnixMilli(dl)
 	}
+	if pf := os.Getenv("VERIF_C11_CPUPROFILE"); pf != "" && shard == 0 {
+		f, _ := os.Create(pf)
+		pprof.StartCPUProfile(f)
+		defer pprof.StopCPUProfile()
+	}
 	res := runShard(sc, shard, n, deadline)
 	var ru syscall.Rusage
 	if syscall.Getrusage(syscall.RUSAGE_SELF, &ru) == nil {
@@ -685,6 +697,9 @@ func replayFile(path string) int {
 		viol := rn.eval(v.Replay, cc)
 		if cc.cancel != nil {
 			cc.cancel()
+		}
+		if cc.scancel != nil {
+			cc.scancel()
 		}
 		if viol != nil {
 			fmt.Printf("VIOLATION property=%s replay=%s\n  key=%s (attempt %d)\n  %s\n", property, path, viol.Key, try+1, viol.Msg)
